@@ -68,7 +68,14 @@ def _fit(args):
         return [], ["skipped: no event shared by two groups"], full
     try:
         RC.ExactLearner.calls = []
-        gs = red.GridSearch(RC.ExactLearner(), M.make_moment(kind, ratio), grid_size=gsize, grid_limit=glimit, constraint_weight=cw)
+        if (gsize + which) % 3 == 0:
+            # estimator that keeps its fitted state in a nested object (Pipeline fits its steps in place)
+            from sklearn.pipeline import Pipeline
+            from sklearn.preprocessing import FunctionTransformer
+            gs = red.GridSearch(Pipeline([("id", FunctionTransformer()), ("clf", RC.ExactLearner())]), M.make_moment(kind, ratio), grid_size=gsize, grid_limit=glimit,
+                                constraint_weight=cw, sample_weight_name="clf__sample_weight")
+        else:
+            gs = red.GridSearch(RC.ExactLearner(), M.make_moment(kind, ratio), grid_size=gsize, grid_limit=glimit, constraint_weight=cw)
         gs.fit(d["X"], np.array(d["y"]), sensitive_features=d["g"])
         calls = RC.ExactLearner.calls
         RC.ExactLearner.calls = None
